@@ -273,6 +273,14 @@ func c14e2eMain(triggered bool) {
 			var ops []string
 			nodes := n
 			var replicas []int
+			var repOf []int // master of the i-th replica added
+			layoutText := c03Layout(r, n)
+			var ranges [][3]int
+			for _, x := range strings.Split(layoutText, ",") {
+				var lo, hi, nd int
+				fmt.Sscanf(x, "%d-%d=%d", &lo, &hi, &nd)
+				ranges = append(ranges, [3]int{lo, hi, nd})
+			}
 			reqs := func() {
 				ops = append(ops, "w")
 				for j, nj := 0, 2+r.intn(6); j < nj; j++ {
@@ -281,19 +289,42 @@ func c14e2eMain(triggered bool) {
 			}
 			// some replicas to begin with
 			for j, nj := 0, r.intn(3); j < nj; j++ {
-				ops = append(ops, fmt.Sprintf("ar%d", r.intn(n)))
+				m := r.intn(n)
+				ops = append(ops, fmt.Sprintf("ar%d", m))
 				replicas = append(replicas, nodes)
+				repOf = append(repOf, m)
 				nodes++
 			}
 			reqs()
 			for j, nj := 0, 1+r.intn(4); j < nj; j++ {
 				switch {
 				case len(replicas) > 0 && r.chance(1, 2):
-					ops = append(ops, fmt.Sprintf("mr%d,%d", replicas[r.intn(len(replicas))], r.intn(n)))
-				case !triggered && r.chance(1, 3):
-					// a master is unreachable for a while: its replicas must not be given its writes
+					ri, m := r.intn(len(replicas)), r.intn(n)
+					repOf[ri] = m
+					ops = append(ops, fmt.Sprintf("mr%d,%d", replicas[ri], m))
+				case !triggered && r.chance(1, 2):
+					// a master is unreachable for a while: its replicas must not be given its writes (nor its reads under
+					// the master-only strategy); preferably a master that has a replica, and keys of its slots
 					m := r.intn(n)
-					ops = append(ops, fmt.Sprintf("d%d", m))
+					for _, rp := range replicas {
+						if rp-n < len(repOf) {
+							m = repOf[rp-n]
+						}
+					}
+					ops = append(ops, fmt.Sprintf("d%d", m), "w")
+					var mine []string
+					for x := 0; x < 60 && len(mine) < 4; x++ {
+						k := []byte("k" + strconv.Itoa(x))
+						sl := simSlot(k)
+						for _, rg := range ranges {
+							if rg[0] <= sl && sl <= rg[1] && rg[2] == m {
+								mine = append(mine, hex.EncodeToString(k))
+							}
+						}
+					}
+					for _, k := range mine {
+						ops = append(ops, "s"+k, "g"+k)
+					}
 					reqs()
 					ops = append(ops, fmt.Sprintf("u%d", m))
 				case r.chance(1, 3):
@@ -304,14 +335,16 @@ func c14e2eMain(triggered bool) {
 					if triggered {
 						continue // a replica nobody has told the proxy about is simply not used
 					}
-					ops = append(ops, fmt.Sprintf("ar%d", r.intn(n)))
+					m := r.intn(n)
+					ops = append(ops, fmt.Sprintf("ar%d", m))
 					replicas = append(replicas, nodes)
+					repOf = append(repOf, m)
 					nodes++
 				}
 				reqs()
 			}
 			hist[fmt.Sprintf("strategy=%d", strategy)]++
-			runLine(fmt.Sprintf("%d %d %s # %s", strategy, n, c03Layout(r, n), strings.Join(ops, " ")))
+			runLine(fmt.Sprintf("%d %d %s # %s", strategy, n, layoutText, strings.Join(ops, " ")))
 		}
 		writeHist(hist)
 	}
